@@ -833,6 +833,14 @@ impl Rest {
                 }
                 self.poll_consumer(j);
             }
+            Step::PollPreempted { j, .. } => {
+                // reached only while a transaction or traversal borrows the vector: a plain poll
+                if self.consumers.is_empty() {
+                    return;
+                }
+                let j = j % self.consumers.len();
+                self.poll_consumer(j);
+            }
             Step::PollWoken(k) => {
                 let r: Vec<usize> = (0..self.consumers.len()).filter(|&j| self.consumers[j].runnable()).collect();
                 if !r.is_empty() {
@@ -1281,7 +1289,7 @@ macro_rules! impl_trav {
 impl_trav!(run_trav_vec, ObservableVector<Elem>, false);
 impl_trav!(run_trav_tx, ObservableVectorTransaction<'_, Elem>, true);
 
-fn panic_msg(p: &Box<dyn std::any::Any + Send>) -> String {
+pub(super) fn panic_msg(p: &Box<dyn std::any::Any + Send>) -> String {
     let m = if let Some(s) = p.downcast_ref::<&str>() {
         s.to_string()
     } else if let Some(s) = p.downcast_ref::<String>() {
@@ -1305,11 +1313,14 @@ pub struct RunRecord {
 
 pub fn run_case(case: &Case) -> RunRecord {
     track::reset();
+    super::preempt::install();
+    let _ = super::preempt::disarm();
     let cfg = &case.config;
     let env: Env = Rc::new(RefCell::new(WorldShared {
         contents: Vec::new(),
         boundaries: vec![Vec::new()],
         commit_bidx: Vec::new(),
+        poll_floor: None,
         dropped: false,
         capacity: cfg.capacity.max(1),
         auditor_on: cfg.auditor,
@@ -1467,6 +1478,19 @@ impl Rest {
                         self.after_producer_step(Expected::Nothing, None, &["C08"]);
                     }
                 }
+                Step::PollPreempted { j, at, ops, drop_vector } => {
+                    if self.consumers.is_empty() {
+                        continue;
+                    }
+                    let j = j % self.consumers.len();
+                    // (with the always-up-to-date auditor on, the reference it provides would have to
+                    // be polled in the middle of the poll as well: such runs poll plainly)
+                    if vec.is_none() || self.env.borrow().auditor_on || !self.consumers[j].live() {
+                        self.poll_consumer(j);
+                    } else {
+                        self.poll_preempted(vec, j, *at, ops, *drop_vector);
+                    }
+                }
                 Step::TxRollback | Step::TxCommit | Step::TxDrop | Step::TravEnd => {}
                 s if s.is_trav_decision() => {}
                 s => self.exec_aux_step(s),
@@ -1475,6 +1499,51 @@ impl Rest {
                 return;
             }
         }
+    }
+
+    /// F8: one poll of consumer `j` during which, at the `at`-th preemption point inside the
+    /// library's receive path, the writer executes `ops` (and possibly drops the vector).
+    fn poll_preempted(&mut self, vec: &mut Option<ObservableVector<Elem>>, j: usize, at: u8, ops: &[Step], drop_vector: bool) {
+        let floor = self.env.borrow().boundaries.len() - 1;
+        self.env.borrow_mut().poll_floor = Some(floor);
+        super::preempt::arm(super::preempt::Armed {
+            countdown: at as u32,
+            ops: ops.to_vec(),
+            drop_vector,
+            vec: vec as *mut Option<ObservableVector<Elem>>,
+            env: self.env.clone(),
+            fired: false,
+            applied: 0,
+            dropped: false,
+            panicked: None,
+        });
+        self.poll_consumer(j);
+        let a = super::preempt::disarm();
+        self.env.borrow_mut().poll_floor = None;
+        let Some(a) = a else { return };
+        if !a.fired {
+            self.count("probe.preemption_point_not_reached");
+            return;
+        }
+        self.count("fault.F8_writer_ran_inside_a_poll");
+        self.faults_fired += 1;
+        self.producer_steps += a.applied as u64;
+        self.model = self.env.borrow().contents.clone();
+        if a.dropped {
+            self.count("fault.F2_producer_dropped");
+            self.count("probe.drop_inside_a_poll");
+        }
+        if a.applied as usize > self.env.borrow().capacity {
+            self.count("probe.overflow_inside_a_poll");
+        }
+        if let Some(p) = a.panicked {
+            self.violate(&["C17"], "mutator_panicked", -1, format!("a direct mutator panicked while a subscriber was inside poll_next: {p}"));
+            return;
+        }
+        if self.failed() {
+            return;
+        }
+        self.audit_armed();
     }
 
     /// End of the case: reach quiescence, then the end-of-run oracles.
